@@ -1,6 +1,9 @@
 package profile
 
-import "fmt"
+import (
+	"fmt"
+	"sync"
+)
 
 type VarGenerator struct {
 	vars    []string
@@ -17,12 +20,20 @@ func NewVarGenerator() VarGenerator {
 
 var globalGenerator = NewVarGenerator()
 
+// globalGeneratorLock makes Genvar/GenReset safe for concurrent compilations: without it two compilations can be
+// handed the same number, also twice within one module
+var globalGeneratorLock sync.Mutex
+
 func Genvar(hint string) string {
+	globalGeneratorLock.Lock()
+	defer globalGeneratorLock.Unlock()
 	globalGenerator.counter++
 	return fmt.Sprintf("gen_%s_%d", hint, globalGenerator.counter)
 }
 
 func GenReset() {
+	globalGeneratorLock.Lock()
+	defer globalGeneratorLock.Unlock()
 	globalGenerator.counter = 0
 }
 
